@@ -255,6 +255,7 @@ fn target_classes(body: &[Ins], idx: usize) -> String {
             Ins::Block(_) => stack.push("block"),
             Ins::Loop(_) => stack.push("loop"),
             Ins::If(_) => stack.push("if"),
+            Ins::TryTable(..) => stack.push("try_table"),
             Ins::End => {
                 stack.pop();
             }
@@ -650,7 +651,42 @@ pub fn judge_exec(id: &str, sc: &Scenario, stats: &mut ExecStats) -> (Judged, Ru
                         if *m != finfo.magic {
                             continue;
                         }
-                        let d = direct_events(&t.trace, *s, *e);
+                        let mut d = direct_events(&t.trace, *s, *e);
+                        if *mode == Mode::FuncExit && !finfo.caught_throws.is_empty() {
+                            // an explicit throw that a try_table of this function catches: the exit probe
+                            // fires once immediately before it (the window between the anchor in front of
+                            // the throw and the next original event), and the activation goes on
+                            let mut bad = None;
+                            let mut i = 0;
+                            while i < d.len() {
+                                if let Ev::Mark(k) = d[i].1 {
+                                    if finfo.caught_throws.iter().any(|c| c.1 == k) {
+                                        let mut j = i + 1;
+                                        let mut fired = vec![];
+                                        while j < d.len() && is_probe(&d[j].1) {
+                                            if d[j].1 == p {
+                                                fired.push(j);
+                                            }
+                                            j += 1;
+                                        }
+                                        // the window closed by the end of the activation means the run was
+                                        // cut short (host trap at the anchor never records it; step cap discards)
+                                        if fired.len() != 1 && j < d.len() {
+                                            bad = Some(format!("activation of {:#x}: exit probe fired {} times immediately before a caught throw (mark {k})", m, fired.len()));
+                                            break;
+                                        }
+                                        for f in fired.iter().rev() {
+                                            d.remove(*f);
+                                        }
+                                    }
+                                }
+                                i += 1;
+                            }
+                            if let Some(e) = bad {
+                                push("C17", Mismatch::new("probe_timing", "func_exit:caught_throw", e), &mut owned, &mut others);
+                                break;
+                            }
+                        }
                         let n = d.iter().filter(|(_, ev)| *ev == p).count();
                         let mut orig_how = acts_o.get(ai).and_then(|a| a.3.clone());
                         // a trap that propagated out of a callee is not this function's own
